@@ -30,6 +30,9 @@ CHECKS = {
  "C15": dict(engine="sequence explorer + stdio process driver + in-process router", technique="exhaustive enumeration of all message sequences up to length m over a 70-template grammar of valid/invalid parameters, each executed against the real server binary over stdio and against the real router in-process; reference model of allowed document outcomes",
    text="After initialize/initialized/didOpen every sequence of <=m templates (invalid positions in every direction, reversed and mid-surrogate ranges, rejected-then-valid changes, unknown/closed/untitled/non-file URIs, watched-file events for existing and vanished paths, every request kind at valid/beyond/unknown targets) is sent to a fresh server process; oracle: process alive and exits 0 after shutdown/exit, every request id answered exactly once, canary answered, each document's text is an allowed outcome (applied as denoted under LSP leniency, or forgotten).",
    note="m=2 on the binary and in-process (quick), m=3 in-process plus change-heavy m=3 on the binary (thorough). Closed and file-watched documents are unconstrained in the text oracle.", ref="5/C15"),
+ "C17": dict(engine="configuration enumerator + in-process router on real directory trees", technique="exhaustive enumeration of project-tree configurations x open orders through the real loader (didOpen on the real router, real files), against a reference model of Gleam's project layout",
+   text="64 trees (registry-style dependency, path dependency, transitive dependency, direct dependency on the transitive one, nested package root, module in src/ vs test/, nested module directories, equal module names, free-standing file) x every open order of up to k documents: for every qualified call go-to-definition must land in a file the layout model allows (or nowhere), prepareRename must refuse build/packages symbols and accept local ones, the free-standing file must answer.",
+   note="k=2 quick, k=3 thorough. Path dependencies without registry dependencies of their own. Paths compared after resolving '..'.", ref="5/C17"),
  "C19": dict(engine="E1 input-space enumerator + in-process router", technique="bounded exhaustive enumeration of documents x highlight lists through the real relative encoder, decoded by a reference LSP client; end-to-end runs of semanticTokens/full through the real router compared with the analysis' own classification of every identifier",
    text="Encoder: every document up to L symbols over {a, space, LF, 2-byte, 4-byte} x every subset of its identifier runs as highlight list x tag assignments: the stream must decode to exactly the reference conversion, strictly increasing, inside lines, no overflow. End to end: every token of the stream is a function / constructor / module identifier with the right type and every such USE is present (declarations and import items may be tagged).",
    note="The end-to-end layer uses fixed projects (not exhaustive, reported as such); its classification oracle is relational (go-to-definition target kind, hover type).", ref="5/C19"),
